@@ -119,6 +119,7 @@ func nsUnderlay(i int) netip.AddrPort {
 // nsGenWorld draws a topology and builds (but does not start) the nodes.
 func nsGenWorld(rt *rapid.T, s *nsSim, o nsWorldOpts) *nsWorld {
 	w := &nsWorld{s: s, byFP: map[string]int{}, lhIdx: -1, relayIdx: -1, injected: map[string]*nsInjected{}, known: map[*HostInfo]bool{}}
+	s.debugLogs = rapid.IntRange(0, 3).Draw(rt, "debugLogging") == 0
 	now := time.Now()
 	caVer := cert.Version2
 	if rapid.IntRange(0, 3).Draw(rt, "caV1") == 0 {
